@@ -122,6 +122,7 @@ func runNode(focus string) func(s *simrt.Sim) {
 		switch focus {
 		case "C48":
 			e.filt = e.genFilters(ids, map[int][]int{
+				bfe_module.HandleAccept:         {vClose},
 				bfe_module.HandleBeforeLocation: {vClose, vFinish, vRedirect, vResponse},
 				bfe_module.HandleFoundProduct:   {vClose, vFinish, vRedirect, vResponse},
 				bfe_module.HandleAfterLocation:  {vClose, vFinish, vRedirect, vResponse},
@@ -636,6 +637,25 @@ func (e *eng) checkC48() {
 			}
 		}
 	}
+	// 1b. the accept chain, per connection
+	acc := map[int][]filtExec{}
+	for _, x := range f.acceptExecs {
+		acc[x.ReqID] = append(acc[x.ReqID], x)
+	}
+	for ci := range e.clients {
+		xs := acc[ci]
+		for i, x := range xs {
+			s.Checked(1)
+			if x.Idx != i {
+				s.FailK("C48.order", "accept-filters-out-of-registration-order", "connection %d at HANDLE_ACCEPT: filter #%d ran where #%d was due", ci, x.Idx, i)
+				return
+			}
+			if x.Verdict != vGoOn && i+1 < len(xs) {
+				s.FailK("C48.stop", "accept-filter-ran-after-stop-verdict", "connection %d at HANDLE_ACCEPT: filter #%d ran after filter #%d answered %s", ci, xs[i+1].Idx, x.Idx, vNames[x.Verdict])
+				return
+			}
+		}
+	}
 	// 2. effects of request-phase verdicts
 	for _, cr := range e.clients {
 		if cr.ParseErr != nil {
@@ -643,6 +663,75 @@ func (e *eng) checkC48() {
 			return
 		}
 		fin := finals(cr.Responses)
+		if aidx, av, ok := f.firstAcceptVerdict(cr.Conn); ok {
+			// the connection is refused at accept: nothing is sent, no request of it is looked at
+			s.Checked(1)
+			if len(acc[cr.Conn]) > 0 && len(acc[cr.Conn]) <= aidx {
+				s.FailK("C48.order", "accept-filter-skipped", "connection %d: HANDLE_ACCEPT#%d (due to answer %s) never ran although the chain was entered", cr.Conn, aidx, vNames[av])
+				return
+			}
+			if len(cr.Raw) > 0 {
+				s.FailK("C48.close", "bytes-sent-after-accept-close-verdict", "connection %d: an accept filter answered close but the client received %q", cr.Conn, clip(cr.Raw, 120))
+				return
+			}
+			for _, p := range cr.Sent {
+				for _, x := range f.execs {
+					if x.ReqID == p.ID {
+						s.FailK("C48.close", "request-processed-after-accept-close-verdict", "connection %d: an accept filter answered close, yet request r%d reached %s#%d", cr.Conn, p.ID, bfe_module.CallbackPointName(x.Point), x.Idx)
+						return
+					}
+				}
+				if as := e.attemptsOf(p.ID); len(as) > 0 {
+					s.FailK("C48.backend", "backend-contacted-after-accept-close-verdict", "connection %d: an accept filter answered close, yet a backend was contacted for r%d", cr.Conn, p.ID)
+					return
+				}
+			}
+			if len(acc[cr.Conn]) > 0 && !cr.Closed && !cr.Reset {
+				s.FailK("C48.close", "connection-open-after-accept-close-verdict", "connection %d: an accept filter answered close but the connection stayed open", cr.Conn)
+				return
+			}
+			s.Probe("c48_accept_close_checked")
+			continue
+		}
+		// 2a. every request that was served passes the whole finish chain up to its first stop verdict,
+		// and a finish verdict there closes the connection after the reply
+		for i, p := range cr.Sent {
+			served := i < len(fin)
+			for _, x := range f.execs {
+				if x.ReqID == p.ID {
+					served = true
+				}
+			}
+			if !served {
+				continue
+			}
+			ch := f.verdict[bfe_module.HandleRequestFinish]
+			for idx := range ch {
+				s.Checked(1)
+				ran := false
+				for _, x := range f.execs {
+					if x.ReqID == p.ID && x.Point == bfe_module.HandleRequestFinish && x.Idx == idx {
+						ran = true
+					}
+				}
+				if !ran {
+					s.FailK("C48.order", "finish-chain-filter-skipped", "request r%d was served but HANDLE_REQUEST_FINISH#%d never ran (every earlier filter of the chain continues)", p.ID, idx)
+					return
+				}
+				if f.v(bfe_module.HandleRequestFinish, idx, p.ID) != vGoOn {
+					if i < len(fin)-1 {
+						s.FailK("C48.finish", "responses-after-finish-verdict", "request r%d: HANDLE_REQUEST_FINISH#%d answered finish but %d more responses followed on the connection", p.ID, idx, len(fin)-1-i)
+						return
+					}
+					if !cr.Closed && !cr.Reset {
+						s.FailK("C48.finish", "connection-open-after-finish-verdict", "request r%d: HANDLE_REQUEST_FINISH#%d answered finish, the connection stayed open", p.ID, idx)
+						return
+					}
+					s.Probe("c48_request_finish_checked")
+					break
+				}
+			}
+		}
 		for i, p := range cr.Sent {
 			point, idx, v, ok := f.firstRequestVerdict(p.ID)
 			if !ok {
@@ -852,9 +941,16 @@ func (e *eng) checkC29() {
 			}
 			s.Probe("c29_untrusted_checked")
 		} else {
-			// trusted: a valid X-Real-Ip sent by the peer is honoured
+			// trusted: a valid X-Real-Ip sent by the peer is honoured (when it sent exactly one:
+			// which of several is taken is not specified)
+			nreal := 0
 			for _, f := range p.Fields {
-				if f.Name == "X-Real-Ip" && net.ParseIP(f.Value) != nil {
+				if strings.EqualFold(f.Name, "X-Real-Ip") {
+					nreal++
+				}
+			}
+			for _, f := range p.Fields {
+				if nreal == 1 && strings.EqualFold(f.Name, "X-Real-Ip") && net.ParseIP(f.Value) != nil {
 					if got := e.seenAddr[p.ID]; !strings.HasPrefix(got, f.Value+":") {
 						s.FailK("C29.trusted", "trusted-peer-header-ignored", "trusted peer %s sent X-Real-Ip %s, req.ClientAddr is %s", peer, f.Value, got)
 						return
